@@ -5,8 +5,8 @@ package adapt
 import (
 	"fmt"
 
-	v1ddb "github.com/aws/aws-sdk-go/service/dynamodb"
 	v2types "github.com/aws/aws-sdk-go-v2/service/dynamodb/types"
+	v1ddb "github.com/aws/aws-sdk-go/service/dynamodb"
 	mtypes "github.com/truora/minidyn/types"
 
 	"verifharness/val"
